@@ -148,6 +148,19 @@ def legacy_layout(rng, repo, kind=None):
         else:
             L.add_fallback(dimg2, [b3[2], a4[2]])
             L.add_fallback(dimg, rds)
+    elif kind == "two-mixed":
+        # two fallback indexes that each mix referrers of both subjects: neither can be adopted, both contribute to both responses
+        r1 = L.add_artifact(sdesc2, artifact_type="application/vnd.example.sig", n=7)
+        r2 = L.add_artifact(sdesc, artifact_type="application/vnd.example.sbom", n=8)
+        r3 = L.add_artifact(sdesc2, artifact_type="application/vnd.example.sbom", n=9)
+        expect[dimg] |= {r2[1]}
+        expect[dimg2] = {r1[1], r3[1]}
+        if rng.random() < 0.5:
+            L.add_fallback(dimg, rds + [r1[2]])
+            L.add_fallback(dimg2, [r2[2], r3[2]])
+        else:
+            L.add_fallback(dimg2, [r2[2], r3[2]])
+            L.add_fallback(dimg, rds + [r1[2]])
     elif kind == "sha512":
         img5 = image_manifest(desc(MT_CFG, b"{}"), [])
         d5 = dg("sha512", img5)
